@@ -501,7 +501,11 @@ Definition exec (e : env) (i : instr) (f : frame) (w : world) (rest : list frame
     let v := bytes_word (slice_pad (f_code f) (f_pc f + 1) n) in
     mk_config (set_pc (set_stack f (v :: tl)) (f_pc f + n + 1) :: rest) w Running
   | IDup n => next (set_stack f (nth (n - 1) s 0 :: s)) w rest
-  | ISwap n => next (set_stack f (nth n s 0 :: firstn (n - 1) (skipn 1 s) ++ a0 s :: skipn (S n) s)) w rest
+  | ISwap n =>
+    match n with
+    | O => next f w rest
+    | S m => next (set_stack f (nth n s 0 :: firstn m (skipn 1 s) ++ a0 s :: skipn (S n) s)) w rest
+    end
   | IMstore => next (set_stack (set_mem f (mem_write (f_mem f) (a0 args) (word_bytes (a1 args))) (f_mcost f)) tl) w rest
   | IMstore8 => next (set_stack (set_mem f (mem_write (f_mem f) (a0 args) [a1 args mod 256]) (f_mcost f)) tl) w rest
   | ICopy src =>
@@ -539,7 +543,7 @@ Definition exec (e : env) (i : instr) (f : frame) (w : world) (rest : list frame
     | SImmediate o gb w' =>
       mk_config (resume_create p (if is_ok o then addr else 0) [] gb :: rest) w' Running
     | SFrame child w' => mk_config (child :: p :: rest) w' Running
-    | SUnsupported => mk_config (f :: rest) w Unsupported
+    | SUnsupported => mk_config (p :: rest) w Unsupported
     end
   | ICallOp k =>
     let hasv := match k with KCall | KCallCode => true | _ => false end in
@@ -555,7 +559,7 @@ Definition exec (e : env) (i : instr) (f : frame) (w : world) (rest : list frame
       let visible := match o with OErr _ => false | _ => true end in
       mk_config (resume_call p (if is_ok o then 1 else 0) visible [] gb (nth 2 r 0) (nth 3 r 0) :: rest) w' Running
     | SFrame child w' => mk_config (child :: p :: rest) w' Running
-    | SUnsupported => mk_config (f :: rest) w Unsupported
+    | SUnsupported => mk_config (p :: rest) w Unsupported
     end
   | IReturn => finish OOk (mem_read (f_mem f) (a0 args) (a1 args)) (set_stack f tl) w rest
   | IRevert => finish ORevert (mem_read (f_mem f) (a0 args) (a1 args)) (set_stack f tl) w rest
